@@ -761,7 +761,11 @@ async fn run_c17(sc: &Value, attempt: u64, rec: Arc<Recorder>) -> Value {
     log("life", &victim, "done", json!({}));
     let leak_detail = if released { vec![] } else { socket_details() };
     rec.drain();
-    let hit = fired1 && app1 && (ev2 == "none" || blocked || (plan.fired2.load(Ordering::SeqCst) && plan.applicable2.load(Ordering::SeqCst)));
+    let hit = fired1
+        && app1
+        && (ev2 == "none"
+            || (blocked && !at2.starts_with("sctp:"))
+            || (plan.fired2.load(Ordering::SeqCst) && plan.applicable2.load(Ordering::SeqCst)));
     json!({
         "comp": "life", "ev": "end", "inst": victim, "id": sc["id"], "hit": hit,
         "fired1": fired1, "applicable1": app1,
